@@ -1023,6 +1023,7 @@ fn main() {
         let progs = [
             ("mod m {\n  fn hidden(){ 7.0 }\n  let y = hidden()\n}\nfn dsp(){ y }\n", "a module-level `let` of module m is referenced from outside the module by its bare name"),
             ("mod m {\n  type Shape = Circle(float) | Square(float)\n  pub fn area(s){ match s { Circle(r) => r, Square(w) => w } }\n}\nfn dsp(){ m::area(Circle(3.0)) }\n", "a constructor of the non-pub type m::Shape is used outside the module by its bare name"),
+            ("mod m {\n  fn secret() { 42.0 }\n  let k = 1.0\n}\nfn k() { m::secret() }\nfn dsp() { k() }\n", "a top-level function that merely has the NAME of a module-level `let` of m is converted in m's module context and reaches m's private function"),
         ];
         let (src, desc) = progs[idx.min(progs.len() - 1)];
         let errs = compile_errors(src);
